@@ -4,7 +4,7 @@ usage: collect_seeds.py <results-file> <wave-tag>   (results lines as printed by
 import json, os, re, shutil, sys, glob
 res, tag = sys.argv[1], sys.argv[2]
 for line in open(res):
-    m = re.match(r'(C\d+) (C\d+[abc]_out)/(\d): (.*)', line.strip())
+    m = re.match(r'(C\d+) (C\d+[abcd]_out)/(\d): (.*)', line.strip())
     if not m: continue
     prop, out, k, rest = m.groups()
     src = f'/tmp/seeds/{out}/{k}'
